@@ -53,7 +53,7 @@ theorem step_closed {s s' : MState} {m : Step} (h : s.isOpen = false) (hs : step
     s'.isOpen = false := by
   unfold step at hs
   cases m <;> simp only [stepR] at hs <;> (repeat' split at hs) <;>
-    simp_all [popLoop_isOpen, dropMarket] <;> (subst hs; first | exact h | exact popLoop_isOpen _ _ h | rfl | (apply popLoop_isOpen; rfl))
+    simp_all [dropMarket] <;> (subst hs; first | exact h | exact popLoop_isOpen _ _ h | rfl | (apply popLoop_isOpen; rfl))
 
 theorem step_closed' {s : MState} (m : Step) (h : s.isOpen = false) : ((step s m).getD s).isOpen = false := by
   cases hs : step s m with
